@@ -19,7 +19,7 @@ from . import _align as A
 from ..oracles import pair_fn
 from ..runner import h
 from ..spec import spec_by_annotator, build_continuum
-from ..universe import fam_block
+from ..universe import fam_block, fam_sparse
 
 ID = "C07"
 TASK_TIMEOUT = 900.0
@@ -172,6 +172,19 @@ def compare(spec, recipe, lib_dis, lib_idx):
     return probs, info
 
 
+def block_spec(block):
+    if block.get("sparse"):
+        return fam_sparse(block["sizes"])
+    return fam_block(block["sizes"], far=block["far"])
+
+
+# cumulative pair-table sizes beyond 2**15 / 2**16 cells with three or more annotators (a 2-annotator continuum has a
+# single table): (k0+1)(k1+1) cells before the second pair's table starts
+SPARSE = {"quick": [[200, 200, 1], [181, 181, 2], [2, 190, 190]],
+          "thorough": [[200, 200, 1], [181, 181, 2], [2, 190, 190], [260, 260, 1], [300, 120, 3], [1, 255, 256], [128, 128, 128],
+                       [40, 40, 40, 2]]}
+
+
 def eval_valid(spec, recipe, warm=None):
     from ..pool import deadline, CaseTimeout
     try:
@@ -237,6 +250,8 @@ def shards(tier, seed):
     per = 4
     for i in range(0, len(blocks), per):
         tasks.append({"blocks": blocks[i:i + per]})
+    for sizes in SPARSE[tier]:
+        tasks.append({"sparse": [sizes]})
     return tasks
 
 
@@ -318,6 +333,10 @@ def run(task):
         spec = fam_block(sizes, far=far)
         for recipe in ({"k": "pos", "de": 1.0}, {"k": "comb", "a": 1.0, "b": 1.0, "de": 0.5}):
             one(spec, recipe, block={"sizes": sizes, "far": far})
+    for sizes in task.get("sparse", []):
+        blk = {"sizes": sizes, "far": None, "sparse": True}
+        for recipe in ({"k": "pos", "de": 1.0}, {"k": "comb", "a": 1.0, "b": 1.0, "de": 0.5}):
+            one(block_spec(blk), recipe, block=blk)
     # max is not additive: report through a set-like list
     res["extra"] = {"buffer_growth_cases": res["extra"]["buffer_growth_cases"]}
     return res
@@ -326,14 +345,14 @@ def run(task):
 def replay(case):
     if "sequence" in case:
         first, second = case["sequence"]
-        sp = [c["spec"] if c.get("spec") else fam_block(c["block"]["sizes"], far=c["block"]["far"]) for c in (first, second)]
+        sp = [c["spec"] if c.get("spec") else block_spec(c["block"]) for c in (first, second)]
         o1 = eval_valid(sp[0], first["recipe"])
         copies = (o1["dis"].copy(), o1["idx"].copy())
         eval_valid(sp[1], second["recipe"])
         if not (np.array_equal(o1["dis"], copies[0]) and np.array_equal(o1["idx"], copies[1])):
             return [{"msg": "candidate table of the first continuum changed after the second call", "case": case}]
         return []
-    spec = case["spec"] if case.get("spec") else fam_block(case["block"]["sizes"], far=case["block"]["far"])
+    spec = case["spec"] if case.get("spec") else block_spec(case["block"])
     obs = eval_valid(spec, case["recipe"], warm=case.get("warm"))
     if not obs["ok"]:
         return [{"msg": f"valid_alignments did not return: {obs['exc']}", "case": case}]
